@@ -72,7 +72,11 @@ impl Generator {
             safety_counter += 1;
 
             let stack_len = self.state.stack.len();
-            if stack_len >= 3 {
+            if self.state.version < Version::V2 {
+                // TUPLE2/TUPLE3 are protocol 2 opcodes; protocols 0 and 1 drop the
+                // surplus items with POP instead
+                self.emit_opcode(Pop);
+            } else if stack_len >= 3 {
                 self.emit_opcode(Tuple3);
                 #[cfg(pickle_fuzzer_verif)]
                 crate::verif::record(self, "collapse", Some(Tuple3));
